@@ -179,6 +179,17 @@ let () =
                 fail id "SPEC" "intersects_is_common_point" (Printf.sprintf "Intersects(a,b)=%c some common point=%b" iab inter);
               if (iba = '1') <> inter then
                 fail id "SPEC" "intersects_is_common_point" (Printf.sprintf "Intersects(b,a)=%c some common point=%b" iba inter);
+              (* CORR: the Intersects model (the one disjoint_is_not_intersects is about); its hypotheses
+                 operand_okb are evaluated on every pair (valid inputs must satisfy them) *)
+              let mi = intersects a b in
+              if mi <> (iab = '1') then
+                fail id "CORR" "intersects_model" (Printf.sprintf "model=%b impl=%c" mi iab);
+              if operand_okb a && operand_okb b then begin
+                count "theorem_hypotheses_operand_okb_hold";
+                (* the theorem instantiated: Disjoint of the model's matrix = not Intersects of the model *)
+                if (mab.[0] <> 'F' || mab.[1] <> 'F' || mab.[3] <> 'F' || mab.[4] <> 'F') <> mi then
+                  fail id "CORR" "disjoint_is_not_intersects_instance" (Printf.sprintf "matrix=%s intersects=%b" mab mi)
+              end else fail id "CORR" "operand_ok_of_valid" "Validate accepts, operand_okb rejects";
               if iab = '1' then count "true_Intersects"
             end;
             (* documented patterns on the definitional matrix (non-empty operands) *)
